@@ -326,6 +326,69 @@ def show_stmts_all(node):
     return " ; ".join(show(n, maxdepth=4) for n in walk(node) if n.get("k") in ("mcall", "call"))
 
 
+# tables of AnchorContext that are filled on demand, only for the ids some earlier step happened to ask about
+LAZY_TABLES = {"column_names": "names are entered by ensure_column_name / load_names for the columns of a projection; a column used only in ORDER BY or a filter of a sub-query has no entry"}
+
+
+def lazy_lookup_panics(body):
+    """[(node, table)]: unwrap/expect/index whose value comes from a lookup in a lazily filled table, directly or through one local"""
+    out = []
+    locs = [(n["l"], show(n["pat"]).replace("mut ", ""), n["init"]) for n in walk(body) if n.get("k") == "local" and n.get("init") is not None]
+
+    def origin(e, line, depth=0):
+        while e is not None and e.get("k") == "mcall" and e["m"] in ("cloned", "clone", "copied", "as_ref", "as_deref", "map", "to_owned"):
+            e = e["r"]
+        if e is None:
+            return None
+        if e.get("k") == "mcall" and e["m"] in ("get", "get_mut", "remove"):
+            r = show(e["r"], maxdepth=6)
+            for t in LAZY_TABLES:
+                if r.endswith("." + t) or r == t:
+                    return t
+        if e.get("k") == "path" and "::" not in e["p"] and depth < 2:
+            cands = [(l, i) for l, nm, i in locs if nm == e["p"] and l <= line]
+            if cands:
+                return origin(max(cands, key=lambda x: x[0])[1], line, depth + 1)
+        return None
+
+    for n in walk(body):
+        if n.get("k") == "mcall" and n["m"] in ("unwrap", "expect"):
+            t = origin(n["r"], n["l"])
+            if t:
+                out.append((n, t))
+        if n.get("k") == "index":
+            r = show(n["e"], maxdepth=6) if n.get("e") is not None else ""
+            for t in LAZY_TABLES:
+                if r.endswith("." + t) or r == t:
+                    out.append((n, t))
+    return out
+
+
+def r7(ctx, rep):
+    rep.rule("C12.R7", "a lookup in a lazily filled table (column_names) is never unwrapped: absence is an ordinary case", floor=2)
+    syn = ctx.syn
+    # positive example (must match on every run): the shape of the defect repaired in translate_cid
+    ex = {"k": "block", "l": 1, "s": [
+        {"k": "local", "l": 1, "pat": {"k": "p_ident", "n": "name", "l": 1},
+         "init": {"k": "mcall", "m": "cloned", "l": 1, "a": [], "r": {"k": "mcall", "m": "get", "l": 1, "a": [{"k": "ref", "l": 1, "e": {"k": "path", "p": "cid", "l": 1}}],
+                                                                      "r": {"k": "field", "l": 1, "e": {"k": "field", "l": 1, "e": {"k": "path", "p": "ctx", "l": 1}, "f": "anchor"}, "f": "column_names"}}}},
+        {"k": "mcall", "m": "expect", "l": 2, "a": [{"k": "lit", "t": "str", "v": "name set", "l": 2}], "r": {"k": "path", "p": "name", "l": 2}},
+    ]}
+    rep.check(len(lazy_lookup_panics(ex)) == 1, "matcher-positive-example", "the matcher must recognise `let name = ctx.anchor.column_names.get(&cid).cloned(); name.expect(..)`")
+    n_fns = 0
+    n_reads = 0
+    for f in syn.fns:
+        if f["crate"] != "prqlc" or "/src/sql/" not in f["file"] or "body" not in f:
+            continue
+        n_fns += 1
+        txt_reads = [n for n in walk(f["body"]) if n.get("k") == "field" and n.get("f") in LAZY_TABLES]
+        n_reads += len(txt_reads)
+        for k, (n, t) in enumerate(lazy_lookup_panics(f["body"])):
+            rep.bad(f"lazy-unwrap:{f['path']}:{t}", f"`{show(n, maxdepth=5)}` panics when `{t}` has no entry for the id: {LAZY_TABLES[t]} "
+                    "(`from a | sort x | take 20 | group {k} (aggregate {s = sum v})` crashed this way)", file=f["file"], line=n["l"], fn=f["path"])
+    rep.check(n_reads >= 5, "reads", f"expected >= 5 uses of the lazily filled tables under sql/, found {n_reads} in {n_fns} functions")
+
+
 def run(ctx, rep):
-    for r in (r1, r2, r3, r4, r5, r6):
+    for r in (r1, r2, r3, r4, r5, r6, r7):
         rep.guard(r, ctx)
